@@ -11,6 +11,7 @@ import (
 	"strings"
 	"sync"
 	"testing"
+	"time"
 
 	"verif/harness/model"
 	"verif/harness/ops"
@@ -44,16 +45,16 @@ type c13Iter struct {
 }
 
 type c13Machine struct {
-	trees   []*c13Tree
-	hist    []c13Step
-	last    *c13Step
-	lastOut string
-	dir     string // scratch for real mkdir
-	seq     int
-	ops     int // From-Root operations executed
+	trees       []*c13Tree
+	hist        []c13Step
+	last        *c13Step
+	lastOut     string
+	dir         string // scratch for real mkdir
+	seq         int
+	ops         int // From-Root operations executed
 	addsAfterOp bool
-	exts    []string
-	massive bool // From-Root output and walk steps run with WithMassive
+	exts        []string
+	massive     bool // From-Root output and walk steps run with WithMassive
 }
 
 type c13History struct {
@@ -655,10 +656,122 @@ func TestC13Concurrent(t *testing.T) {
 		}
 		c.Procs = rapid.SampledFrom([]int{1, 2, 4, 16}).Draw(rt, "procs")
 		col.eval(true, hash64(fmt.Sprint(c)), fmt.Sprintf("concurrent(%d)", g), fmt.Sprintf("gomaxprocs:%d", c.Procs))
-		col.sample(func() any { return map[string]any{"goroutines": g, "docs": c.Docs, "first": histString(c.Histories[0])} })
+		col.sample(func() any {
+			return map[string]any{"goroutines": g, "docs": c.Docs, "first": histString(c.Histories[0])}
+		})
 		// a schedule-dependent failure may not reproduce: try the same case several times before judging
 		if msg := c13ConcurrentCheck(c); msg != "" {
 			violation(rt, "C13", "c13c", c, msg)
 		}
 	})
+}
+
+// ---- bursts: many independent massive-mode calls in flight at once -----------------------------------------------------
+
+type c13Burst struct {
+	Calls  int    `json:"calls"`  // simultaneous calls
+	Kind   string `json:"kind"`   // root | markdown | mixed
+	SlowUs int    `json:"slowUs"` // every Write of every call sleeps that long, so that the calls overlap
+	Roots  int    `json:"roots"`  // roots per Markdown document
+}
+
+func init() { registerReplay("c13b", c13BurstCheck) }
+
+type slowWriter struct {
+	buf bytes.Buffer
+	us  int
+}
+
+func (w *slowWriter) Write(p []byte) (int, error) {
+	if w.us > 0 {
+		time.Sleep(time.Duration(w.us) * time.Microsecond)
+	}
+	return w.buf.Write(p)
+}
+
+func c13BurstCheck(c c13Burst) string {
+	type call struct {
+		doc  string
+		root *gtree.Node
+		want []string // per-root blocks
+	}
+	calls := make([]call, c.Calls)
+	for i := range calls {
+		var f model.Forest
+		for r := 0; r < c.Roots; r++ {
+			f = append(f, &model.T{Name: fmt.Sprintf("r%d-%d", i, r), Kids: []*model.T{{Name: "a", Kids: []*model.T{{Name: "b"}}}, {Name: "c"}}})
+		}
+		fromRoot := c.Kind == "root" || (c.Kind == "mixed" && i%2 == 0)
+		if fromRoot {
+			f = f[:1]
+			n := gtree.NewRoot(f[0].Name)
+			n.Add("a").Add("b")
+			n.Add("c")
+			calls[i].root = n
+		} else {
+			calls[i].doc = model.Spell(f, model.Plain2)
+		}
+		calls[i].want = model.RenderBlocks(f, model.DefaultBranch)
+	}
+	start := make(chan struct{})
+	type result struct {
+		out string
+		err error
+	}
+	results := make([]chan result, c.Calls)
+	for i := range calls {
+		results[i] = make(chan result, 1)
+		go func(i int) {
+			w := &slowWriter{us: c.SlowUs}
+			<-start
+			var err error
+			if calls[i].root != nil {
+				err = gtree.OutputFromRoot(w, calls[i].root, gtree.WithMassive(context.Background()))
+			} else {
+				err = gtree.OutputFromMarkdown(w, strings.NewReader(calls[i].doc), gtree.WithMassive(context.Background()))
+			}
+			results[i] <- result{w.buf.String(), err}
+		}(i)
+	}
+	close(start)
+	deadline := time.After(30 * time.Second)
+	for i := range calls {
+		select {
+		case r := <-results[i]:
+			if r.err != nil {
+				return fmt.Sprintf("call %d of %d simultaneous massive-mode calls failed: %v (alone it succeeds)", i, c.Calls, r.err)
+			}
+			if !isPermutationOfBlocks(r.out, calls[i].want) {
+				return fmt.Sprintf("call %d of %d simultaneous massive-mode calls returned nil but wrote %q; alone it writes (in some order) %q", i, c.Calls, r.out, strings.Join(calls[i].want, ""))
+			}
+		case <-deadline:
+			return fmt.Sprintf("call %d of %d simultaneous massive-mode calls has not returned after 30 s (alone it returns at once)", i, c.Calls)
+		}
+	}
+	return ""
+}
+
+func TestC13Burst(t *testing.T) {
+	col := coll("C13", "burst")
+	col.Rule = "bursts of 2..64 independent massive-mode calls (From-Root, From-Markdown with 1..12 roots, mixed) released at the same instant with slow writers so that they overlap; every call must give the result it gives alone"
+	n := 0
+	for _, calls := range []int{2, 8, 9, 13, 16, 32, 64} {
+		for _, kind := range []string{"root", "markdown", "mixed"} {
+			for _, slow := range []int{0, 300, 2000} {
+				for _, roots := range []int{1, 12} {
+					n++
+					if n%nshards != shard {
+						continue
+					}
+					c := c13Burst{Calls: calls, Kind: kind, SlowUs: slow, Roots: roots}
+					col.eval(calls >= 9, hash64(fmt.Sprint(c)), fmt.Sprintf("burst(%d)", calls), "kind:"+kind)
+					col.sample(func() any { return c })
+					if msg := c13BurstCheck(c); msg != "" {
+						violation(t, "C13", "c13b", c, msg)
+					}
+				}
+			}
+		}
+	}
+	col.Exhaustive = true
 }
